@@ -378,6 +378,22 @@ def run(ctx):
                 stats['gcc_agree'] += 1
             else:
                 ctx.broken('correspondence', 'Python presumed-location reference vs gcc', 'gcc %r, reference %r; text %r' % (g, exp, text[:300]))
+    # diagnostics on tokens made by macro replacement (# operator, replacement lists, arguments): the location must
+    # name this file and a line of the invocation or of the definition - never a null file or line 0
+    MACRO_DIAG = [('#define S(x) #x\nint S(x);\n', {1, 2}), ('#define S(x) #x\n\nint a = 1;\nint S(a\n b);\n', {1, 4, 5}),
+                  ('#define M 1 +\n\nint v = M;\n', {1, 3}), ('#define F(a, b) a b\nint F(x,\n 2);\n', {1, 2, 3}),
+                  ('#define V(...) #__VA_ARGS__ __VA_ARGS__\nint q = V(1,\n2);\n', {1, 2, 3})]
+    for k, (text, lines) in enumerate(MACRO_DIAG):
+        path = os.path.join(work, 'md%d.c' % k)
+        open(path, 'w').write(text)
+        rc, out, err = run_limited([exe, path], timeout=20, cap=1 << 20)
+        first = err.decode('latin-1').split('\n')[0]
+        m = re.match(r'^(.*):(\d+):(\d+): error: ', first)
+        stats['diag_programs'] += 1
+        if rc != 1 or not m or m.group(1) != path or int(m.group(2)) not in lines:
+            dbad += 1
+            ctx.violation('diagnostic on a token produced by macro replacement does not name a line of the invocation or definition: %r (rc=%d)' % (first[:160], rc),
+                          text, 'c', key='diag:macro-token-location')
     ctx.ob('K-diag:%d programs with one violation on a line of its own: first stderr line = presumed location of the offending token (gcc agrees on %d/%d)'
            % (stats['diag_programs'], stats['gcc_agree'], stats['gcc_checked']), dbad == 0)
 
